@@ -7,6 +7,7 @@ from core import Spec, standard_check, qlit, boollit
 
 INF = F(1.0e30)
 OPTS = ['SLSQP', 'COBYLA', 'trust-constr']
+ALLOW_NEG = True     # negative constraint scalers in the random stream (FINDINGS.md section 4 / fix_4.diff)
 GRAD = {'SLSQP': True, 'COBYLA': False, 'trust-constr': True}
 NEW = {'SLSQP': False, 'COBYLA': False, 'trust-constr': True}
 
@@ -180,8 +181,10 @@ def pattern_cases():
     out = []
     pats = ['l', 'u', 'b', 'n']
     for m in (1, 2, 3):
-        for combo in itertools.product(pats, repeat=m):
+        for ci, combo in enumerate(itertools.product(pats, repeat=m)):
             for opt in OPTS:
+                if m == 3 and opt != 'SLSQP' and ci % 3 != (1 if opt == 'COBYLA' else 2):
+                    continue      # m = 3: all 64 patterns with SLSQP, a third each with COBYLA / trust-constr
                 n = m
                 H = [[(2 if i == j else 0) for j in range(n)] for i in range(n)]
                 b = [(4 if (i % 2 == 0) else -4) for i in range(n)]     # unconstrained optimum +-2
@@ -233,7 +236,7 @@ class C21(Spec):
                  'feasibility 1e-6, optimum 5e-5 SLSQP / 1e-3 trust-constr; for COBYLA the optimum is recorded, not enforced) for the end-to-end oracle')
     shard = 80
     impl_jobs = 4
-    rule = ('all per-element patterns {lower-only, upper-only, two-sided, none}^m, m <= 3, x 3 optimizers; random strictly convex QPs '
+    rule = ('all per-element patterns {lower-only, upper-only, two-sided, none}^m, m <= 3 (m = 3: all with SLSQP, a third each with COBYLA and trust-constr), x 3 optimizers; random strictly convex QPs '
             '(n <= 3, 1-2 constraints of 1-3 elements, indices, linear flag, equality, scalar/array bounds with +-1e30 entries, '
             'constraint scaler +-2^j scalar/array and adder, design-variable bounds/scaler/adder, objective scaler/adder) x '
             'SLSQP / COBYLA / trust-constr; one case = one optimisation; distinct cases are non-trivial')
@@ -244,13 +247,18 @@ class C21(Spec):
         cases = pattern_cases()
         nr = 180 if tier == 'quick' else 3000
         for k in range(nr):
-            c = rnd_case(rng, opt=OPTS[k % 3], force_first_onesided=(k % 4 == 0))
+            c = rnd_case(rng, opt=OPTS[k % 3], force_first_onesided=(k % 4 == 0), allow_neg=ALLOW_NEG)
             c['class'] = 'random'
             cases.append(c)
         return cases
 
     def search_gen(self, tier, rng):
-        return [dict(rnd_case(rng), **{'class': 'random'}) for _ in range(600)]
+        return [dict(rnd_case(rng, allow_neg=ALLOW_NEG), **{'class': 'random'}) for _ in range(600)]
+
+    def compare_case(self, case, res):
+        # a case on which the oracle already fails is reported as a failing input (or as a known
+        # finding by its signature); the descriptor comparison would only repeat it
+        return bool(res.get('ok', True)) and res.get('res', '__none__') != '__none__'
 
     def kind(self, case, res):
         return res.get('kind') if isinstance(res, dict) else None
